@@ -102,6 +102,35 @@ CHECKS["C12"] = dict(
     technique="TLA+ model checking (TLC) + behaviour replay + TLC trace validation",
     design="6/C12")
 
+CHECKS["C03"] = dict(
+    level="model_checking",
+    text="TLC checks the reader/decoder step machine of lines.c against the documented listing function RProgram for every byte string "
+         "over token-class alphabets in both framings (about 650k states); real-width sweeps (every byte as a token in all ten dialect "
+         "names, every extension pair, line-number references, header numbers, LISTO 0..7 x loop nestings incl. loop bytes inside "
+         "strings, strings holding every byte, all body lengths) run through the real binary from file and stdin, and TraceBasic.tla "
+         "judges each listing byte for byte against RProgram with tables generated from the golden token map.",
+    note="Token tables are taken from basic/testdata/golden-token-map.txt (pinned by the repository's own test); inputs the documents "
+         "leave open are classified 'unspec' and judged for cleanliness only.",
+    technique="TLA+ model checking (TLC) + behaviour replay + TLC trace validation",
+    design="6/C03")
+CHECKS["C09"] = dict(
+    level="model_checking",
+    text="TLC checks for every byte string over the framing alphabet (both framings, about 2.5M states) that the reader model rejects what "
+         "the requirement calls ill-formed and that output only grows; every proper prefix and every single-byte framing corruption of 15 "
+         "well-formed programs and every order of 1..3/4 input files from {valid, valid, truncated, corrupt, one-byte-short} run through "
+         "the real binary; TraceBasic.tla judges rejection, the prefix relation against the intact listing and per-file independence.",
+    note="A truncation is any proper non-empty prefix; the static line buffer is part of the model state.",
+    technique="TLA+ model checking (TLC) + behaviour replay + TLC trace validation",
+    design="6/C09")
+CHECKS["C08"] = dict(
+    level="exploration",
+    text="The Basic.tla reader model supplies every byte string of length <= 4 over the framing alphabet in both framings as hostile input; "
+         "with seeded random / mutated / length-sweep inputs and the whole option grammar they are run through the ASan+UBSan build, and "
+         "the pinned NDEBUG build under valgrind (uninitialised option state); TraceBasic.tla judges the outcome alphabet and the listing.",
+    note="Memory safety is observed by sanitizers and valgrind, not decided by TLC.",
+    technique="TLC-generated hostile inputs + sanitizer/valgrind replay + TLC trace validation",
+    design="6/C08")
+
 PENDING_REASON = "check not built yet in this session (work in progress; design in DESIGN.md section 6)"
 
 
